@@ -1,4 +1,5 @@
 import HH.Intrin.X86
+import HH.Intrin.Wasm
 import HH.Hex
 /-! # Evaluation of single modelled x86 intrinsics for the conformance stream (`intrin …` ops) -/
 namespace HH
@@ -41,7 +42,42 @@ def evalX86 (name : String) (imm : Nat) (a : List (BitVec 128)) : Option (BitVec
   | "inserti128_si256" => two (inserti128_si256 ⟨g 0, g 1⟩ (g 2) imm)
   | _ => none
 
+/-- single modelled wasm32 simd128 intrinsics (`intrin w… <imm> <operands>` on the wasm runners) -/
+def evalWasm (name : String) (imm : Nat) (a : List (BitVec 128)) : Option (BitVec 128) :=
+  let g (i : Nat) : BitVec 128 := a.getD i 0
+  match name with
+  | "wadd" => some (Wasm.u64x2_add (g 0) (g 1))
+  | "wsub" => some (Wasm.u64x2_sub (g 0) (g 1))
+  | "wmul" => some (Wasm.u64x2_mul (g 0) (g 1))
+  | "wand" => some (Wasm.v128_and (g 0) (g 1))
+  | "wor" => some (Wasm.v128_or (g 0) (g 1))
+  | "wxor" => some (Wasm.v128_xor (g 0) (g 1))
+  | "wandnot" => some (Wasm.v128_andnot (g 0) (g 1))
+  | "wshr64" => some (Wasm.u64x2_shr (g 0) imm)
+  | "wshl64" => some (Wasm.u64x2_shl (g 0) imm)
+  | "wshr32" => some (Wasm.u32x4_shr (g 0) imm)
+  | "wshl32" => some (Wasm.u32x4_shl (g 0) imm)
+  | "wrepl" => if imm < 4 then some (Wasm.i32x4_replace_lane imm (g 0) ((g 1).setWidth 32)) else none
+  | "wzip" => some (Wasm.u8x16_shuffle [3, 12, 2, 5, 1, 14, 0, 15, 11, 4, 10, 13, 6, 9, 7, 8] (g 0) (g 1))
+  | "wrot" => some (Wasm.u32x4_shuffle 1 0 3 2 (g 0) (g 1))
+  | "wsh12" => some (Wasm.u64x2_shuffle 1 2 (g 0) (g 1))
+  | "wext" => if imm < 2 then some ((Wasm.u64x2_extract_lane imm (g 0)).setWidth 128) else none
+  | "wswz" => some (Wasm.u8x16_swizzle (g 0) (g 1))
+  | "wmk64" => some (Wasm.u64x2 ((g 0).setWidth 64) ((g 1).setWidth 64))
+  | "wmk32" => some (Wasm.u32x4 ((g 0).setWidth 32) ((g 1).setWidth 32) ((g 2).setWidth 32) ((g 3).setWidth 32))
+  | _ => none
+
 def u128Hex (x : BitVec 128) : String := u64Hex ((x >>> 64).setWidth 64) ++ u64Hex (x.setWidth 64)
+
+def intrinLineWasm (toks : List String) : Option String :=
+  match toks with
+  | "intrin" :: name :: imm :: ops => do
+    let i ← imm.toNat?
+    let vs ← ops.mapM fun s => (parseHexNat? s).map (BitVec.ofNat 128)
+    match evalWasm name i vs with
+    | some v => some (u128Hex v)
+    | none => some "bad-op"
+  | _ => none
 
 def intrinLine (toks : List String) : Option String :=
   match toks with
